@@ -194,13 +194,26 @@ fn candidates(c: &Case) -> Vec<Case> {
 }
 
 /// Greedy descent: accept the first simpler candidate that still fails; stop at a fixpoint or after `budget` evaluations.
-pub fn shrink(case: &Case, budget: usize, mut still_fails: impl FnMut(&Case) -> bool) -> (Case, usize) {
+/// `fix` re-establishes the generator's invariants on a candidate (e.g. re-plants the match a property's domain requires);
+/// the effort is bounded by `budget` evaluations and by `max_secs` of wall-clock time (shrinking effort only - never an oracle).
+pub fn shrink(
+    case: &Case,
+    budget: usize,
+    max_secs: u64,
+    fix: impl Fn(Case) -> Case,
+    mut still_fails: impl FnMut(&Case) -> bool,
+) -> (Case, usize) {
     let mut cur = case.clone();
     let mut used = 0usize;
+    let t0 = std::time::Instant::now();
     'outer: loop {
         for cand in candidates(&cur) {
-            if used >= budget {
+            if used >= budget || t0.elapsed().as_secs() >= max_secs {
                 break 'outer;
+            }
+            let cand = fix(cand);
+            if cand == cur || !executable(&cand) {
+                continue;
             }
             used += 1;
             if still_fails(&cand) {
